@@ -653,6 +653,14 @@ fn gen_syn_word(rng: &mut Rng) -> String {
     (0..n).map(|_| *rng.pick(&['a', 'b', 'c', 'd', 'a', 'b'])).collect()
 }
 
+/// Some letters of the text in upper case (the exceptions stay lower case: \lccode handling).
+fn mixed_case(rng: &mut Rng, w: &str) -> String {
+    if !rng.chance(1, 6) {
+        return w.to_string();
+    }
+    w.chars().map(|c| if rng.chance(1, 2) { c.to_ascii_uppercase() } else { c }).collect()
+}
+
 fn hyphenate_at_random(rng: &mut Rng, w: &str) -> String {
     let mut s = String::new();
     for (i, c) in w.chars().enumerate() {
@@ -677,7 +685,7 @@ fn gen_syn_case(rng: &mut Rng) -> String {
     for i in 0..nwords {
         let w = gen_syn_word(rng);
         excs.push(hyphenate_at_random(rng, &w));
-        let mut t = w.clone();
+        let mut t = mixed_case(rng, &w);
         if rng.chance(1, 5) {
             t.push(*rng.pick(&['.', ',', '-', 'x']));
         }
@@ -809,6 +817,7 @@ impl Property for C14 {
     }
 
     fn run_case(&mut self, case: &str, drv: &mut Driver) -> CaseOutcome {
+        let _watch = Watch::new(case);
         let mut out = CaseOutcome::default();
         let Some(c) = parse_case(case) else {
             out.tag("bad-case");
@@ -941,7 +950,6 @@ impl Property for C14 {
         if reply.starts_with("bad") {
             panic!("driver: {reply} on chk");
         }
-        let detail = || format!("before: {}\nafter:  {}\ndriver: {reply}", show_list(&inp), show_list(&list));
         let f = |k: &str| field(&reply, k).to_string();
         let nd: usize = f("nd").parse().unwrap_or(0);
         out.nontrivial = nd > 0 || f("model") != "_";
@@ -974,36 +982,10 @@ impl Property for C14 {
             }
         }
 
-        // S on the real output
-        if f("p1") != "1" {
-            out.tag("P1-violated");
-            let sig = format!("P1 {}{}", f("mm"), if nd == 0 { " without any discretionary" } else { "" });
-            out.fail(Kind::ImplVsSpec, "P1", sig, format!("deleting the inserted discretionaries does not give the input back\n{}", detail()));
-        }
-        if f("p2") != "1" {
-            out.tag("P2-violated");
-            out.fail(Kind::ImplVsSpec, "P2", "P2 letters at a discretionary", format!("pre-break minus hyphen ++ post-break is not the letters of the replaced nodes\n{}", detail()));
-        }
-        let (imp, model, spec, pre) = (f("impl"), f("model"), f("spec"), f("pre"));
-        if f("extra") != "_" {
-            out.fail(Kind::ImplVsSpec, "positions", "positions extra", format!("discretionary at a position that is not allowed: {}\n{}", f("extra"), detail()));
-        }
-        if f("missU") != "_" {
-            let sig = if imp == pre && pre != model { "C14-a word after a letterless token is not tried" } else { "positions missing" };
-            out.fail(Kind::ImplVsSpec, "positions", sig, format!("no discretionary at allowed positions {}\n{}", f("missU"), detail()));
-        }
-        if f("missC") != "_" {
-            out.tag("position-skipped-in-synchronisation");
-            out.fail(
-                Kind::ImplVsSpec,
-                "positions",
-                "positions skipped during synchronisation",
-                format!("allowed positions {} lie inside the span replaced by another discretionary and get none\n{}", f("missC"), detail()),
-            );
-        }
-        // M for the reconstitution: C14.hyphenateM over C05's model of the font's program
-        match &font.enc {
-            None => out.tag("recon-model:skipped(to_scaled panics)"),
+        // M for the reconstitution first: the signatures of the known findings are only emitted when
+        // the model reproduces the real output exactly (then the recorded deviation is the only one)
+        let rm_reply: Option<String> = match &font.enc {
+            None => None,
             Some(pe) => {
                 if self.last_prog.as_deref() != Some(c.font.as_str()) {
                     let ok = drv.ask(&format!("prog {pe}"));
@@ -1016,7 +998,67 @@ impl Property for C14 {
                 if reply.starts_with("bad") {
                     panic!("driver: {reply} on rm");
                 }
-                let parts: Vec<&str> = reply.split(" | ").collect();
+                Some(reply)
+            }
+        };
+        let rm_parts: Vec<&str> = rm_reply.as_deref().map(|r| r.split(" | ").collect()).unwrap_or_default();
+        let model_exact = rm_parts.first().map(|v| v.trim() == "1").unwrap_or(false);
+        let dev: String = rm_parts.get(3).and_then(|x| x.split(' ').find_map(|w| w.strip_prefix("dev="))).unwrap_or("").to_string();
+        let detail = || format!("before: {}\nafter:  {}\ndriver: {reply}\nrm: {}", show_list(&inp), show_list(&list), rm_parts.first().unwrap_or(&"-").trim().to_string() + " " + rm_parts.get(3).unwrap_or(&""));
+
+        // S on the real output
+        if f("p1") != "1" {
+            out.tag("P1-violated");
+            // Known boundary artefacts (C14-f/g/i): only when the transcription model reproduces the real
+            // output exactly and every word whose main run is not its nodes has the recorded shape
+            // (`devClass` in the driver). Every other P1 failure keeps a signature of its own.
+            let devs: Vec<char> = dev.chars().filter(|c| *c != '-').collect();
+            let sig = if model_exact && !devs.is_empty() && devs.iter().all(|c| "fgij".contains(*c)) {
+                match devs[0] {
+                    'f' => "P1 C14-f right-boundary override artefact (model = output)".to_string(),
+                    'g' => "P1 C14-g left-boundary kern emitted twice (model = output)".to_string(),
+                    'j' => "P1 C14-j left-boundary rule chain not re-applied (model = output)".to_string(),
+                    _ => "P1 C14-i left context of the word lost (model = output)".to_string(),
+                }
+            } else if model_exact {
+                format!("P1 {} (model = output, unclassified deviation {})", f("mm"), dev)
+            } else {
+                format!("P1 {}{}", f("mm"), if nd == 0 { " without any discretionary" } else { "" })
+            };
+            out.fail(Kind::ImplVsSpec, "P1", sig, format!("deleting the inserted discretionaries does not give the input back\n{}", detail()));
+        }
+        if f("p2") != "1" {
+            out.tag("P2-violated");
+            out.fail(Kind::ImplVsSpec, "P2", "P2 letters at a discretionary", format!("pre-break minus hyphen ++ post-break is not the letters of the replaced nodes\n{}", detail()));
+        }
+        let (imp, model, spec) = (f("impl"), f("model"), f("spec"));
+        if f("extra") != "_" {
+            out.fail(Kind::ImplVsSpec, "positions", "positions extra", format!("discretionary at a position that is not allowed: {}\n{}", f("extra"), detail()));
+        }
+        if f("missU") != "_" {
+            let sig = "positions missing";
+            out.fail(Kind::ImplVsSpec, "positions", sig, format!("no discretionary at allowed positions {}\n{}", f("missU"), detail()));
+        }
+        if f("missC") != "_" {
+            out.tag("position-skipped-in-synchronisation");
+            // C14-h only when the model (for which `positions_exact` characterises the skipped positions)
+            // reproduces the output exactly
+            let sig = if model_exact {
+                "positions skipped during synchronisation (model = output)"
+            } else {
+                "positions missing inside the span of another discretionary (model does not reproduce the output)"
+            };
+            out.fail(
+                Kind::ImplVsSpec,
+                "positions",
+                sig,
+                format!("allowed positions {} lie inside the span replaced by another discretionary and get none\n{}", f("missC"), detail()),
+            );
+        }
+        match &rm_reply {
+            None => out.tag("recon-model:skipped(to_scaled panics)"),
+            Some(_) => {
+                let parts = rm_parts.clone();
                 out.tag("recon-model:compared");
                 match parts[0].trim() {
                     "1" => {}
@@ -1029,7 +1071,7 @@ impl Property for C14 {
                     ),
                 }
                 // `hyphenateM_invariants`: model output = real output and unbroken = input imply P1
-                let ub = parts.get(3).map(|x| x.trim()).unwrap_or("");
+                let ub = parts.get(3).map(|x| x.trim().split(' ').next().unwrap_or("")).unwrap_or("");
                 out.tag(format!("recon-model:{}", if ub == "ub=1" { "unbroken=input" } else { "unbroken!=input (boundary artefact)" }));
                 if parts[0].trim() == "1" && ub == "ub=1" && f("p1") != "1" {
                     out.fail(Kind::ModelVsSpec, "recon", "P1 fails although model = output and unbroken = input", detail());
@@ -1170,7 +1212,90 @@ impl Property for C14 {
     }
 }
 
+// ---------------------------------------------------------------------------------------------
+// Watchdog: the code under test runs in-process; a change that makes the synchronisation loop (or a
+// lig/kern run) spin for ever must be reported with its input instead of stalling the check.
+// ---------------------------------------------------------------------------------------------
+
+static WATCH: std::sync::Mutex<Option<(String, std::time::Instant)>> = std::sync::Mutex::new(None);
+const HANG_SECS: u64 = 15;
+
+struct Watch;
+impl Watch {
+    fn new(case: &str) -> Watch {
+        *WATCH.lock().unwrap() = Some((case.to_string(), std::time::Instant::now()));
+        Watch
+    }
+}
+impl Drop for Watch {
+    fn drop(&mut self) {
+        if let Ok(mut w) = WATCH.lock() {
+            *w = None;
+        }
+    }
+}
+
+fn start_watchdog() {
+    let args: Vec<String> = std::env::args().collect();
+    let arg = |k: &str| args.iter().position(|x| x == k).and_then(|i| args.get(i + 1).cloned());
+    let out_path = arg("--out");
+    let replay = arg("--replay-case").is_some();
+    let tier = arg("--tier").unwrap_or_else(|| "quick".into());
+    let seed: u64 = arg("--seed").and_then(|s| s.parse().ok()).unwrap_or(1);
+    // CPU seconds (user + system) this process has used: a genuine endless loop burns CPU, a stall
+    // (blocked on the driver's pipe, machine overloaded or suspended) does not.
+    fn cpu_secs() -> f64 {
+        let stat = std::fs::read_to_string("/proc/self/stat").unwrap_or_default();
+        let after = stat.rsplit(')').next().unwrap_or("");
+        let f: Vec<&str> = after.split_whitespace().collect();
+        // fields after the command name: state is index 0, utime index 11, stime index 12
+        let t = |i: usize| f.get(i).and_then(|x| x.parse::<f64>().ok()).unwrap_or(0.0);
+        (t(11) + t(12)) / 100.0
+    }
+    std::thread::spawn(move || {
+      let mut suspect: Option<(String, f64)> = None;
+      loop {
+        std::thread::sleep(std::time::Duration::from_millis(500));
+        let active = WATCH.lock().ok().and_then(|w| w.as_ref().filter(|(_, t)| t.elapsed().as_secs() >= 3).map(|(c, _)| c.clone()));
+        let hung = match (&active, &suspect) {
+            (Some(c), Some((sc, base))) if c == sc => {
+                if cpu_secs() - base >= HANG_SECS as f64 { Some(c.clone()) } else { None }
+            }
+            (Some(c), _) => {
+                suspect = Some((c.clone(), cpu_secs()));
+                None
+            }
+            (None, _) => {
+                suspect = None;
+                None
+            }
+        };
+        if let Some(case) = hung {
+            let sig = "hang: the hyphenation pass does not return";
+            let detail = format!("no result after {HANG_SECS} s of CPU time on this one case (the Rust loop does not terminate on this input)");
+            if replay {
+                println!("replay: impl-panic stream=hyphenate signature={sig}\n  {detail}");
+                std::process::exit(1);
+            }
+            let j = format!(
+                "{{\n  \"property\": \"C14\",\n  \"tier\": {},\n  \"seed\": {seed},\n  \"evaluations\": 1,\n  \"distinct_nontrivial\": 1,\n  \"corpus_cases\": 0,\n  \"corpus_file_cases\": 0,\n  \"driver_requests\": 0,\n  \"failing_cases\": 1,\n  \"rule\": \"run aborted by the watchdog: a case did not return\",\n  \"samples\": [],\n  \"histogram\": {{\"impl-hang\": 1}},\n  \"failures\": [\n    {{\"kind\": \"impl-panic\", \"stream\": \"hyphenate\", \"signature\": {}, \"detail\": {}, \"case\": {}}}\n  ],\n  \"wall_s\": {HANG_SECS}.0\n}}\n",
+                jstr(&tier),
+                jstr(sig),
+                jstr(&detail),
+                jstr(&case)
+            );
+            match &out_path {
+                Some(p) => std::fs::write(p, j).expect("write report"),
+                None => print!("{j}"),
+            }
+            std::process::exit(0);
+        }
+      }
+    });
+}
+
 fn main() {
+    start_watchdog();
     let repo = std::env::var("VERIF_REPO").unwrap_or_else(|_| "/repo".into());
     let repo = {
         // --repo on the command line wins (same rule as vh::parse_args)
